@@ -873,4 +873,244 @@ theorem checkInputSection_ok_iff (files : Files) (fl : MachineFlags) (kvs out : 
     simp only [List.mem_cons, List.mem_nil_iff, or_false] at hkv
     rcases hkv with h | h <;> simp [h]
 
+
+/-! ### 5. Against the documentation (`inputVerdict`) -/
+
+theorem foldl_and_reject (cs : List (String × Dom)) (a : Dom) :
+    cs.foldl (fun acc c => Dom.and acc c.2) a = .reject ↔ a = .reject ∨ ∃ c ∈ cs, c.2 = .reject := by
+  induction cs generalizing a with
+  | nil => simp
+  | cons c rest ih =>
+    simp only [List.foldl_cons, ih, List.mem_cons, exists_eq_or_imp]
+    cases a <;> cases h : c.2 <;> simp [Dom.and]
+
+theorem foldl_and_accept (cs : List (String × Dom)) (a : Dom) :
+    cs.foldl (fun acc c => Dom.and acc c.2) a = .accept ↔ a = .accept ∧ ∀ c ∈ cs, c.2 = .accept := by
+  induction cs generalizing a with
+  | nil => simp
+  | cons c rest ih =>
+    simp only [List.foldl_cons, ih, List.mem_cons, forall_eq_or_imp]
+    cases a <;> cases h : c.2 <;> simp [Dom.and]
+
+/-- what the specification reads of a user side: the value under a key, magic strings rewritten -/
+def getU (S : Dict) (k : String) : Option JVal := (Dict.lookup S k).map rewriteLeaf
+/-- the image file of a user side -/
+def imU (files : Files) (S : Dict) : Option FileInfo :=
+  match Dict.lookup S "img" with
+  | some v => fileOf files v
+  | none => none
+
+theorem sideClauses_eq (files : Files) (side : String) (S : Dict) (lg : Bool) :
+    sideClauses files side S lg =
+      [ (side ++ ".keys", ofBool (S.all (fun kv => sideKeys.contains kv.1))),
+        (side ++ ".img", ofBool (imU files S).isSome),
+        (side ++ ".nodata", nodataVerdict (getU S "nodata")),
+        (side ++ ".mask", auxVerdict files (imU files S) (getU S "mask")),
+        (side ++ ".classif", auxVerdict files (imU files S) (getU S "classif")),
+        (side ++ ".segm", auxVerdict files (imU files S) (getU S "segm")),
+        (side ++ ".disp", if side == "left" then leftDispVerdict files (imU files S) (getU S "disp")
+                          else rightDispVerdict files (imU files S) lg (getU S "disp")) ] := rfl
+
+def leftIsGridU (L : Dict) : Bool := match Dict.lookup L "disp" with | some (.str _) => true | _ => false
+
+theorem inputClauses_sides (files : Files) (kvs L R : Dict)
+    (hL : Dict.lookup kvs "left" = some (.obj L)) (hR : Dict.lookup kvs "right" = some (.obj R)) :
+    inputClauses files (some (.obj kvs)) =
+      [("sections", ofBool (kvs.all (fun kv => kv.1 == "left" || kv.1 == "right")))] ++
+      sideClauses files "left" L (leftIsGridU L) ++ sideClauses files "right" R (leftIsGridU L) ++
+      [("same_size", match imU files L, imU files R with
+                     | some a, some b => ofBool (a.width == b.width && a.height == b.height)
+                     | _, _ => .reject)] := by
+  simp only [inputClauses, hL, hR, leftIsGridU, imU]
+  rfl
+
+theorem verdict_needs_sides (files : Files) (kvs : Dict)
+    (h : inputVerdict files (some (.obj kvs)) ≠ .reject) :
+    ∃ L R, Dict.lookup kvs "left" = some (.obj L) ∧ Dict.lookup kvs "right" = some (.obj R) := by
+  cases hl : Dict.lookup kvs "left" with
+  | none => exact absurd (by simp [inputVerdict, inputClauses, hl, Dom.and]) h
+  | some lv =>
+    cases hr : Dict.lookup kvs "right" with
+    | none => exact absurd (by cases lv <;> simp [inputVerdict, inputClauses, hl, hr, Dom.and]) h
+    | some rv =>
+      cases lv <;> cases rv <;>
+        first
+        | exact ⟨_, _, rfl, rfl⟩
+        | exact absurd (by simp [inputVerdict, inputClauses, hl, hr, Dom.and]) h
+
+theorem ofBool_accept (b : Bool) : ofBool b = .accept ↔ b = true := by cases b <;> simp [ofBool]
+theorem ofBool_not_reject (b : Bool) : ofBool b ≠ .reject ↔ b = true := by cases b <;> simp [ofBool]
+
+theorem nodataVerdict_accept (v : JVal) : nodataVerdict (some v) = .accept ↔ nodataOk v = true := by
+  cases v <;> simp [nodataVerdict, nodataOk]
+  rename_i f; cases f <;> simp [nodataVerdict, nodataOk]
+
+theorem auxVerdict_some (files : Files) (im : FileInfo) (v : JVal) :
+    auxVerdict files (some im) (some v) = ofBool (auxOk files im (some v)) := by
+  cases v with
+  | str p =>
+    simp only [auxVerdict, auxOk]
+    cases hf : files p with
+    | none => simp [ofBool]
+    | some a => simp
+  | _ => simp [auxVerdict, auxOk, ofBool]
+
+theorem verdict_obj_reject (files : Files) (im : Option FileInfo) (lg : Bool) (s : Dict) :
+    nodataVerdict (some (.obj s)) = .reject ∧ auxVerdict files im (some (.obj s)) = .reject ∧
+    leftDispVerdict files im (some (.obj s)) = .reject ∧ rightDispVerdict files im lg (some (.obj s)) = .reject := by
+  simp [nodataVerdict, auxVerdict, leftDispVerdict, rightDispVerdict]
+
+theorem ite_undecided_ne_accept (c : Prop) [Decidable c]
+    (h : (if c then Dom.undecided else Dom.reject) = Dom.accept) : False := by
+  split at h <;> cases h
+
+/-- the left disparity the documentation accepts is one the code accepts -/
+theorem leftDisp_accept (files : Files) (im : FileInfo) (v : JVal)
+    (h : leftDispVerdict files (some im) (some v) = .accept) :
+    (∃ items, v = .list items ∧ rangeOk v = true) ∨ (∃ p, v = .str p ∧ gridOk files (some im) p = true) := by
+  cases v with
+  | list items =>
+    left
+    refine ⟨items, rfl, ?_⟩
+    match items with
+    | [a, b] =>
+      cases a <;> cases b <;> simp [leftDispVerdict, intOf?, rangeOk, ofBool] at h ⊢
+      all_goals first
+        | exact h
+        | exact (ite_undecided_ne_accept _ h).elim
+    | [] => simp [leftDispVerdict] at h
+    | [_] => simp [leftDispVerdict] at h
+    | _ :: _ :: _ :: _ => simp [leftDispVerdict] at h
+  | str p => right; exact ⟨p, rfl, by simpa [leftDispVerdict, ofBool_accept] using h⟩
+  | _ => simp [leftDispVerdict] at h
+
+
+
+/-- no file is called `NaN`, `inf` or `-inf` (`update_conf` turns these three strings into floats
+    wherever they occur, image paths included) -/
+def MagicFree (files : Files) : Prop := files "NaN" = none ∧ files "inf" = none ∧ files "-inf" = none
+
+theorem rewriteLeaf_str_file {files : Files} (hm : MagicFree files) {p : String} {im : FileInfo}
+    (hf : files p = some im) : rewriteLeaf (.str p) = .str p := by
+  unfold rewriteLeaf
+  have h1 : p ≠ "NaN" := by intro e; subst e; rw [hm.1] at hf; cases hf
+  have h2 : p ≠ "inf" := by intro e; subst e; rw [hm.2.1] at hf; cases hf
+  have h3 : p ≠ "-inf" := by intro e; subst e; rw [hm.2.2] at hf; cases hf
+  simp [h1, h2, h3]
+
+theorem rewriteLeaf_obj (s : Dict) : rewriteLeaf (.obj s) = .obj s := by simp [rewriteLeaf]
+
+/-- merging a side whose values are all leaves: always succeeds; the defaults keep their place,
+    the user's new keys follow; every user value is stored rewritten, every default the user did not
+    override is kept -/
+theorem merge_leaves (g : Bool) (d S : Dict) (hnd : (Dict.keys S).Nodup)
+    (hleaf : ∀ k u, Dict.lookup S k = some u → u.isObj = false) :
+    ∃ S', updateConf g d S = .ok S' ∧
+      Dict.keys S' = Dict.keys d ++ (Dict.keys S).filter (fun k => !(Dict.keys d).contains k) ∧
+      ∀ k, Dict.lookup S' k = match Dict.lookup S k with
+                              | some u => some (rewriteLeaf u)
+                              | none => Dict.lookup d k := by
+  obtain ⟨S', hS'⟩ := Merge.updateConf_intro g S d hnd
+    (fun k v hl => ⟨rewriteLeaf v, Merge.updateVal_leaf g _ v (hleaf k v hl)⟩)
+  obtain ⟨hk, hnone, hsome⟩ := Merge.updateConf_inv g S d S' hnd hS'
+  refine ⟨S', hS', hk, ?_⟩
+  intro k
+  cases hl : Dict.lookup S k with
+  | none => exact hnone k hl
+  | some u =>
+    obtain ⟨v', hv', hl'⟩ := hsome k u hl
+    rw [Merge.updateVal_leaf g _ u (hleaf k u hl)] at hv'
+    cases hv'; exact hl'
+
+theorem imU_some {files : Files} {S : Dict} (h : (imU files S).isSome = true) :
+    ∃ p im, Dict.lookup S "img" = some (.str p) ∧ files p = some im ∧ imU files S = some im := by
+  unfold imU at h ⊢
+  cases hl : Dict.lookup S "img" with
+  | none => simp [hl] at h
+  | some v =>
+    cases v <;> simp [hl, fileOf] at h ⊢
+    rename_i p
+    cases hf : files p with
+    | none => simp [hf] at h
+    | some im => exact ⟨im, rfl⟩
+
+theorem sideKeys_cases {k : String} (h : sideKeys.contains k = true) :
+    k = "img" ∨ k = "nodata" ∨ k = "disp" ∨ k = "mask" ∨ k = "classif" ∨ k = "segm" := by
+  simpa [sideKeys] using h
+
+/-- a user side the documentation accepts merges into its defaults, and the completed side passes
+    the part of `formOk` that concerns one side -/
+theorem side_accept (files : Files) (hm : MagicFree files) (g : Bool) (d S : Dict) (hd : d = dL ∨ d = dR)
+    (hnd : (Dict.keys S).Nodup)
+    (hkeys : S.all (fun kv => sideKeys.contains kv.1) = true)
+    (himg : (imU files S).isSome = true)
+    (hnod : nodataVerdict (getU S "nodata") = .accept)
+    (hmask : auxVerdict files (imU files S) (getU S "mask") = .accept)
+    (hclassif : auxVerdict files (imU files S) (getU S "classif") = .accept)
+    (hsegm : auxVerdict files (imU files S) (getU S "segm") = .accept)
+    (hdisp : ∀ u, Dict.lookup S "disp" = some u → u.isObj = false) :
+    ∃ S' im, updateConf g d S = .ok S' ∧ imU files S = some im ∧ imgOf files S' = some im ∧
+      sideBaseOk files S' im = true ∧
+      Dict.lookup S' "disp" = (match getU S "disp" with | some v => some v | none => Dict.lookup d "disp") := by
+  obtain ⟨p, im, hp, hf, him⟩ := imU_some himg
+  rw [him] at hmask hclassif hsegm
+  have hdkeys : ∀ k ∈ Dict.keys d, sideKeys.contains k = true := by
+    rcases hd with rfl | rfl <;> decide
+  have hdnod : Dict.lookup d "nodata" = some (.int (-9999)) := by rcases hd with rfl | rfl <;> rfl
+  have hdaux : ∀ k, k = "mask" ∨ k = "classif" ∨ k = "segm" → Dict.lookup d k = some .null := by
+    intro k hk; rcases hd with rfl | rfl <;> rcases hk with rfl | rfl | rfl <;> rfl
+  have hdimg : Dict.lookup d "img" = none := by rcases hd with rfl | rfl <;> rfl
+  -- every value is a leaf
+  have hleaf : ∀ k u, Dict.lookup S k = some u → u.isObj = false := by
+    intro k u hl
+    have hk := sideKeys_cases ((List.all_eq_true.1 hkeys) (k, u) (Merge.mem_of_lookup S k u hl))
+    cases hu : u.isObj
+    · rfl
+    · exfalso
+      cases u <;> simp [JVal.isObj] at hu
+      rename_i s
+      have hr := verdict_obj_reject files (some im) false s
+      rcases hk with rfl | rfl | rfl | rfl | rfl | rfl
+      · rw [hp] at hl; cases hl
+      · simp [getU, hl, rewriteLeaf_obj, hr.1] at hnod
+      · exact absurd (hdisp _ hl) (by simp [JVal.isObj])
+      · simp [getU, hl, rewriteLeaf_obj, hr.2.1] at hmask
+      · simp [getU, hl, rewriteLeaf_obj, hr.2.1] at hclassif
+      · simp [getU, hl, rewriteLeaf_obj, hr.2.1] at hsegm
+  obtain ⟨S', hS', hk', hlook⟩ := merge_leaves g d S hnd hleaf
+  have himg' : imgOf files S' = some im := by
+    unfold imgOf
+    rw [hlook "img", hp]
+    simp only [rewriteLeaf_str_file hm hf, hf]
+  -- an auxiliary key
+  have haux : ∀ k, k = "mask" ∨ k = "classif" ∨ k = "segm" →
+      auxVerdict files (some im) (getU S k) = .accept → auxOk files im (Dict.lookup S' k) = true := by
+    intro k hk hv
+    rw [hlook k]
+    cases hl : Dict.lookup S k with
+    | none => simp only [hdaux k hk]; rfl
+    | some u =>
+      simp only [getU, hl, Option.map_some, auxVerdict_some, ofBool_accept] at hv
+      exact hv
+  refine ⟨S', im, hS', him, himg', ?_, ?_⟩
+  · simp only [sideBaseOk, Bool.and_eq_true]
+    refine ⟨⟨⟨⟨?_, ?_⟩, haux _ (Or.inl rfl) hmask⟩, haux _ (Or.inr (Or.inl rfl)) hclassif⟩,
+      haux _ (Or.inr (Or.inr rfl)) hsegm⟩
+    · rw [List.all_eq_true]
+      intro kv hkv
+      have hin : kv.1 ∈ Dict.keys S' := List.mem_map_of_mem (f := (·.1)) hkv
+      rw [hk'] at hin
+      rcases List.mem_append.1 hin with h | h
+      · exact hdkeys _ h
+      · obtain ⟨kv', hkv', he⟩ := List.mem_map.1 (List.mem_filter.1 h).1
+        rw [← he]; exact (List.all_eq_true.1 hkeys) kv' hkv'
+    · rw [hlook "nodata"]
+      cases hl : Dict.lookup S "nodata" with
+      | none => simp only [hdnod]; rfl
+      | some u =>
+        simp only [getU, hl, Option.map_some, nodataVerdict_accept] at hnod
+        exact hnod
+  · rw [hlook "disp"]
+    cases hl : Dict.lookup S "disp" <;> simp [getU, hl]
+
 end Pandora.C17W
